@@ -96,7 +96,7 @@ var plural = map[string]string{
 
 var allKinds = []string{"schema", "parameter", "header", "response", "requestBody", "example", "securityScheme", "pathItem"}
 
-var weirdNames = []string{"a/b", "m~n", "c d", "c%d", "e~1f", "p%20q", "x/y~z", "né"}
+var weirdNames = []string{"a/b", "m~n", "c d", "c%d", "e~1f", "p%20q", "x/y~z", "né", "a.b-c_d", "q~/r", "s t/u", "k+l", "v=w", "(z)"}
 
 type comp struct {
 	kind  string
@@ -128,10 +128,11 @@ type opS struct {
 type slot struct {
 	node *V
 	file string
+	refc bool // response whose body schema is a reference (headers on two such responses trip a known naming defect)
 	ord  int // creation number: a slot may only refer to components with a smaller id (keeps the graph acyclic)
 }
 
-func (b *gb) slot(n *V, file string) slot { return slot{n, file, b.id()} }
+func (b *gb) slot(n *V, file string) slot { return slot{node: n, file: file, ord: b.id()} }
 
 // free lists the slots that may refer to c without closing a cycle.
 func free(ss []slot, c *comp) []slot {
@@ -463,13 +464,25 @@ func (b *gb) paramBody(file string, pathParam bool) *V {
 
 func (b *gb) responseBody(file string) *V {
 	r := O("description", fmt.Sprintf("response %d", b.id()))
-	if b.rng.Chance(35) {
+	hdr := b.rng.Chance(35)
+	if hdr {
 		set(r, "headers", O(fmt.Sprintf("X-Inl-%d", b.id()), b.headerBody(file)))
 	}
+	sl := b.slot(r, file)
 	if b.rng.Chance(80) {
-		set(r, "content", O("application/json", b.mediaJSON(file)))
+		m := b.mediaJSON(file)
+		if m.Get("schema").Get("$ref") != nil {
+			if hdr && !b.rng.Chance(20) {
+				// headers + referenced body schema: mostly avoided (see slot.refc)
+				s, _ := b.schemaBody(file, 1)
+				set(m, "schema", s)
+			} else {
+				sl.refc = true
+			}
+		}
+		set(r, "content", O("application/json", m))
 	}
-	b.resps = append(b.resps, b.slot(r, file))
+	b.resps = append(b.resps, sl)
 	return r
 }
 
@@ -600,7 +613,7 @@ func (b *gb) attach(c *comp, siteNo int) bool {
 		// a response that does not use this component yet
 		var cands []slot
 		for _, s := range free(b.resps, c) {
-			used := false
+			used := s.refc && !r.Chance(20)
 			if h := s.node.Get("headers"); h != nil {
 				for _, m := range h.Members {
 					if strings.HasPrefix(m.Name, fmt.Sprintf("X-H%d-", c.id)) {
@@ -616,7 +629,7 @@ func (b *gb) attach(c *comp, siteNo int) bool {
 			o := b.pickOp("", false, func(o *opS) bool { return len(o.node.Get("responses").Members) < 3 })
 			rb := b.responseBody(b.root)
 			b.addResponse(o, rb)
-			cands = []slot{{rb, b.root, b.id()}}
+			cands = []slot{{node: rb, file: b.root, ord: b.id()}}
 		}
 		s := ev.Pick(r, cands)
 		set(ensureObj(s.node, "headers"), fmt.Sprintf("X-H%d-%s", c.id, letter), b.ref(c, s.file))
@@ -716,8 +729,14 @@ func (b *gb) attach(c *comp, siteNo int) bool {
 			md := O("schema", b.ref(c, b.root))
 			b.medias = append(b.medias, b.slot(md, b.root))
 			rb := O("description", "uses schema", "content", O("application/json", md))
-			b.resps = append(b.resps, b.slot(rb, b.root))
-			b.addResponse(o, rb)
+			sl := b.slot(rb, b.root)
+			sl.refc = true
+			b.resps = append(b.resps, sl)
+			if r.Chance(85) {
+				b.addResponseCode(o, rb, []string{"200", "201", "202", "400", "404", "409"})
+			} else {
+				b.addResponse(o, rb)
+			}
 		}
 	}
 	return true
@@ -729,9 +748,11 @@ func (b *gb) responseBodyWithContent(file string) *V {
 	return r
 }
 
-func (b *gb) addResponse(o *opS, rb *V) {
+func (b *gb) addResponse(o *opS, rb *V) { b.addResponseCode(o, rb, respCodes) }
+
+func (b *gb) addResponseCode(o *opS, rb *V, codes []string) {
 	resp := o.node.Get("responses")
-	for _, code := range shuffled(b.rng, respCodes) {
+	for _, code := range shuffled(b.rng, codes) {
 		if resp.Get(code) == nil {
 			set(resp, code, rb)
 			return
@@ -805,33 +826,30 @@ func GenGraph(rng *ev.Rand) (FileSet, []string) {
 		case "schema":
 			var prim bool
 			body, prim = b.schemaBody(home, 0)
-			c = b.placeHome(kind, body, home)
-			c.prim = prim
+			c = b.placeHome(kind, body, home, prim, false)
 		case "parameter":
 			pp := rng.Chance(20)
 			body = b.paramBody(home, pp)
-			c = b.placeHome(kind, body, home)
-			c.pathP = pp
+			c = b.placeHome(kind, body, home, false, pp)
 		case "header":
 			body = b.headerBody(home)
-			c = b.placeHome(kind, body, home)
+			c = b.placeHome(kind, body, home, false, false)
 		case "response":
 			body = b.responseBody(home)
-			c = b.placeHome(kind, body, home)
+			c = b.placeHome(kind, body, home, false, false)
 		case "requestBody":
 			body = b.requestBodyBody(home)
-			c = b.placeHome(kind, body, home)
+			c = b.placeHome(kind, body, home, false, false)
 		case "example":
 			body = b.exampleBody()
-			c = b.placeHome(kind, body, home)
+			c = b.placeHome(kind, body, home, false, false)
 		case "securityScheme":
 			body = b.securityBody()
-			c = b.placeHome(kind, body, home)
+			c = b.placeHome(kind, body, home, false, false)
 		case "pathItem":
 			pp := rng.Chance(25)
 			body = b.pathItemBody(home, pp)
-			c = b.placeHome(kind, body, home)
-			c.pathP = pp
+			c = b.placeHome(kind, body, home, false, pp)
 		}
 		b.comps = append(b.comps, c)
 	}
@@ -839,6 +857,10 @@ func GenGraph(rng *ev.Rand) (FileSet, []string) {
 	for i := 0; i < len(b.comps); i++ { // b.comps may grow while sites are made
 		c := b.comps[i]
 		k := 2 + rng.Intn(2)
+		if (c.kind == "header" || c.kind == "pathItem") && rng.Chance(30) {
+			// a single site: the two known cache leaks need two, and they hide everything else about these kinds
+			k = 1
+		}
 		for tries := 0; c.sites < k && tries < 6; tries++ {
 			b.attach(c, c.sites)
 		}
@@ -878,8 +900,9 @@ func GenGraph(rng *ev.Rand) (FileSet, []string) {
 
 // placeHome stores a featured component whose body was built relative to file home.
 // The body must stay in `home`; variety of locations comes from the aliases in front of it.
-func (b *gb) placeHome(kind string, body *V, home string) *comp {
+func (b *gb) placeHome(kind string, body *V, home string, prim, pathP bool) *comp {
 	c := b.placeIn(home, kind, body)
+	c.prim, c.pathP = prim, pathP
 	r := b.rng
 	// the whole-file placement: only when the body has no references of its own
 	hasRef := false
